@@ -431,7 +431,7 @@ def main(argv=None):
         ev['tools']['hypothesis'] = hypothesis.__version__
     except Exception:
         pass
-    if not args.only:
+    if not args.only and os.path.realpath(REPO) == '/repo' and not os.environ.get('VERIF_NO_EVIDENCE'):
         os.makedirs(os.path.join(VERIF, 'evidence'), exist_ok=True)
         with open(os.path.join(VERIF, 'evidence', prop + '.json'), 'w') as fh:
             json.dump(ev, fh, indent=1, sort_keys=True)
